@@ -42,18 +42,24 @@ static sexp sexp_lookup_source_info (sexp src, int ip) {
 #endif
 
 sexp sexp_get_stack_trace (sexp ctx) {
-  sexp_sint_t i, fp=sexp_context_last_fp(ctx);
+  sexp_sint_t i, next, fp=sexp_context_last_fp(ctx);
+  sexp_sint_t len = sexp_stack_length(sexp_context_stack(ctx));
   sexp self, bc, src, *stack = sexp_stack_data(sexp_context_stack(ctx));
   sexp_gc_var2(res, cell);
   sexp_gc_preserve2(ctx, res, cell);
   res = SEXP_NULL;
-  for (i=fp; i>4; i=sexp_unbox_fixnum(stack[i+3])) {
+  /* the outermost frame of a nested sexp_apply (a foreign function calling
+     back into the VM) links to the operands of that foreign call, not to a
+     frame: follow a link only if it is the index of a frame further down */
+  for (i=fp; i>4 && i+3<len; i=next) {
+    next = sexp_fixnump(stack[i+3]) ? sexp_unbox_fixnum(stack[i+3]) : 0;
+    if (next >= i) next = 0;
     self = stack[i+2];
     if (self && sexp_procedurep(self)) {
       bc = sexp_procedure_code(self);
       src = sexp_bytecode_source(bc);
 #if SEXP_USE_FULL_SOURCE_INFO
-      if (src && sexp_vectorp(src))
+      if (src && sexp_vectorp(src) && sexp_fixnump(stack[i+3]))
         src = sexp_lookup_source_info(src, sexp_unbox_fixnum(stack[i+3]));
 #endif
       cell = sexp_cons(ctx, self, src ? src : SEXP_FALSE);
